@@ -24,7 +24,10 @@ def c17_configs(gapless):
     split3 = Config(full_t.feats, split=[list(range(0, n, 3)), list(range(1, n, 3)), list(range(2, n, 3))])
     vis = Config([("as_str", {"vis": "pub(crate)", "name": "label", "mode": "table"}), ("iter", {"vis": "", "struct_name": "It", "name": "all"}),
                   ("names", {"struct_name": "Nm", "vis": "pub"}), ("MIN", {"name": "FIRST", "vis": "pub"}), "Debug", "TryFrom", ("sorted", {})])
-    return [("full-table", full_t), ("full-match", full_m), ("named", named), ("split3", split3), ("params", vis)]
+    sv = Config(list(full_t.feats) + [("sorted", {"value": None})])
+    snv = Config(list(full_m.feats) + [("sorted", {"name": None, "value": None})])
+    return [("full-table", full_t), ("full-match", full_m), ("sorted-value", sv), ("named", named), ("split3", split3), ("params", vis),
+            ("sorted-name-value", snv)]
 
 
 def run_orders(decl_texts, cap=200000):
@@ -100,7 +103,7 @@ def c17(tier):
         for comb in itertools.combinations(window, n):
             for perm in itertools.permutations(comb):
                 d = make_decl("i8", list(perm), renames=True, salt=len(decls))
-                for lab, cfg in c17_configs(d.gapless)[:2 if n > 2 else 5]:
+                for lab, cfg in c17_configs(d.gapless)[:3 if n > 2 else 7]:
                     decls.append(("S%s/%s" % (list(perm), lab), d.render(cfg.attr_lines(), indent="")))
     for n in range(4, maxn + 1):
         for comb in itertools.combinations(window, n):
@@ -111,6 +114,20 @@ def c17(tier):
         d = make_decl("i16", [5, -3, 100, 0, 7, -32768, 6], renames=True, salt=1)
         for lab, cfg in c17_configs(d.gapless)[:2]:
             decls.append(("seven/%s" % lab, d.render(cfg.attr_lines(), indent="")))
+    # declarations in ascending order (legal under sorted(value)), and truncation/sign aliases on wide reprs
+    for n in range(2, maxn + 1):
+        d = make_decl("i16", list(range(-2, -2 + n)), renames=False)
+        d2 = make_decl("i16", [x * 3 for x in range(-1, n - 1)], renames=False)
+        for dd in (d, d2):
+            for lab, cfg in c17_configs(dd.gapless):
+                decls.append(("asc%d/%s" % (n, lab), dd.render(cfg.attr_lines(), indent="")))
+    for r in ("i16", "u32", "i64", "u64", "i128"):
+        for d in enums.family_A(r):
+            for lab, cfg in c17_configs(d.gapless)[:3]:
+                decls.append(("alias%s%s/%s" % (r, d.tag["set"], lab), d.render(cfg.attr_lines(), indent="")))
+            ds = make_decl(r, sorted(d.tag["set"]), renames=False)
+            lab, cfg = c17_configs(ds.gapless)[2]
+            decls.append(("alias-asc%s%s/%s" % (r, d.tag["set"], lab), ds.render(cfg.attr_lines(), indent="")))
     # implicit discriminants and mixed
     for vs in ([None, None, None], ["5", None, "-1", None], [None, "10", None, "3"]):
         d = EnumDecl("i32", [Variant("V%d" % i, lit=l) for i, l in enumerate(vs)])
@@ -202,6 +219,14 @@ def c18(tier):
                 if list(comb) in sets:
                     continue
                 sets.append(list(comb))
+    # value sets touching the limits of the narrow reprs (where +1/-1 wraps in the smallest admissible repr but not in a wider one)
+    limits = [-128, 127, 255, -32768, 32767, 65535] + ([-(1 << 31), (1 << 31) - 1, (1 << 32) - 1, enums.I64_MIN, enums.I64_MAX] if tier == "thorough" else [enums.I64_MAX])
+    for L in limits:
+        below = L - 1 if L > 0 else L + 1
+        for comb in ([0, L], sorted([below, L]), sorted([0, 5, L]), sorted([0, below, L])):
+            comb = sorted(set(comb))
+            if comb not in sets and all(enums.I64_MIN <= v <= enums.I64_MAX for v in comb):
+                sets.append(comb)
     names_for = {}
     for si, comb in enumerate(sets):
         # names are attached to VALUES (the discriminant -> name map is what must be preserved)
